@@ -224,3 +224,44 @@ Fixpoint C14_same_results (first : ke_data * Z) (others : list (ke_data * Z)) : 
 (* a canonical record list followed by End decodes, with no error, to the data it spells *)
 Definition C14_records_ok (rs : list ke_record) (d0 d : ke_data) (err : Z) : bool :=
   (err =? 0) && kd_eqb d (fold_left apply_record rs d0).
+
+(* ---------- record-level meaning of a message (specification side, from RFC 8915 and the
+   property text; no bytes involved) ----------
+   ke_spec rs d = Some (data, error class, records left for the next call): records in order;
+   End ends the message; an Error record ends it with the class of its code; a Warning record is
+   of a type ReadData does not know and carries the critical bit: error; a record list that
+   just stops is the end of the stream (io.EOF).  None: no claim (a record outside `canonical`,
+   e.g. an Algorithm record with several entries). *)
+Definition error_class (x : Z) : Z :=
+  if x =? 0 then e_msg_critical else if x =? 1 then e_msg_badreq else if x =? 2 then e_msg_internal else e_msg_unknown.
+
+Fixpoint ke_spec (rs : list ke_record) (d : ke_data) : option (ke_data * Z * list ke_record) :=
+  match rs with
+  | [] => Some (d, e_eof, [])
+  | REnd :: r => Some (d, 0, r)
+  | RError x :: r => if (0 <=? x) && (x <? 65536) then Some (d, error_class x, r) else None
+  | RWarning x :: r => if (0 <=? x) && (x <? 65536) then Some (d, e_unknown_critical, r) else None
+  | x :: r => if canonical x then ke_spec r (apply_record d x) else None
+  end.
+
+(* what the decoder keeps of a record: the NextProto value, the critical bits of Server and Port
+   and the body of an unknown record are discarded (Data has no field for them) *)
+Inductive rec_info := IAlgo (a : Z) | IServer (a : list Z) | IPort (p : Z) | ICookie (c : list Z) | INone.
+Definition info_of (r : ke_record) : rec_info :=
+  match r with
+  | RAlgorithm [a] => IAlgo a
+  | RServer a _ => IServer a
+  | RPort p _ => IPort p
+  | RCookie c => ICookie c
+  | _ => INone
+  end.
+
+(* the records that spell a Data value *)
+Definition data_records (d : ke_data) : list ke_record :=
+  [RNextProto 0; RAlgorithm [kd_algo d]; RServer (kd_server d) false; RPort (kd_port d) false]
+  ++ map RCookie (kd_cookies d).
+
+Definition kd_wf (d : ke_data) : Prop :=
+  (0 <= kd_algo d < 65536) /\ (0 <= kd_port d < 65536) /\
+  bytes_ok (kd_server d) /\ (Z.of_nat (length (kd_server d)) < 65536) /\
+  Forall (fun c => bytes_ok c /\ (Z.of_nat (length c) < 65536)) (kd_cookies d).
